@@ -241,6 +241,9 @@ def evaluate(kind, label, name, text, lines):
                 "the same bytes load with %d into a fresh object and %d into a used one (%s / %s)" % (rc0, rc1, msg0, msg1))
     if rc0 not in (0, -1):
         return ({"kind": "bad_return", "loader": fam}, "vnadata_fload returned %d" % rc0)
+    if kind == "directed" and label in MUST_REFUSE and not (rc0 == -1 and e0 == MUST_REFUSE[label]):
+        return ({"kind": "directed_input_not_refused", "loader": fam, "input": label},
+                "%s must be refused with %s, vnadata_fload returned %d %s (%s)" % (label, MUST_REFUSE[label], rc0, e0, msg0))
     good = ld(loads[3])
     after_good = D.parse_dump(dumps[3])
     if good[0] != 0 or after_good is None or after_good.type != "S" or after_good.rows != 1 or len(after_good.freqs) != 1 \
@@ -319,6 +322,13 @@ def evaluate(kind, label, name, text, lines):
     return None
 
 
+# directed inputs the loaders must refuse, with the errno: precisions below 1 (fix DB91; the loader used to store 0, which
+# the setters refuse), a NaN reference impedance (fix DB93; "x <= 0.0" let it through), and the look-ahead family
+# (the unexpected character after [Network Data] is reported before vnadata_init is called)
+MUST_REFUSE = {"npd-dprecision-0": "EBADMSG", "npd-fprecision-0": "EBADMSG", "ts1-r-nan": "EBADMSG", "ts2-reference-nan": "EBADMSG",
+               "ts2-many-ports-bad-char": "EBADMSG", "ts2-many-ports-bad-keyword": "EBADMSG"}
+
+
 def directed():
     """Inputs aimed at the places DESIGN.md section 7 names (D29, D30, D36) and at the loaders' arithmetic."""
     out = []
@@ -375,7 +385,18 @@ def directed():
     out.append(("npd-keyword-midline", "x.npd", "#:ports 1 #:frequencies 1\n#:frequencies 1\n#:parameters Sri\n1e9 1 2\n"))
     out.append(("npd-z0-then-ports", "x.npd", "#:rows 1\n#:columns 1\n#:z0 50 0j\n#:ports 1\n#:frequencies 1\n#:parameters Sri\n1e9 1 2\n"))
     out.append(("npd-high-bytes", "x.npd", "#:ports 1\n#:frequencies 1\n#:parameters S\xe9ri\n1e9 1 2\n"))
-    out.append(("npd-dprecision-0", "x.npd", "#:ports 1\n#:frequencies 1\n#:parameters Sri\n#:dprecision 0\n#:fprecision 0\n1e9 1 2\n"))
+    out.append(("npd-dprecision-0", "x.npd", "#:ports 1\n#:frequencies 1\n#:parameters Sri\n#:dprecision 0\n1e9 1 2\n"))
+    out.append(("npd-fprecision-0", "x.npd", "#:ports 1\n#:frequencies 1\n#:parameters Sri\n#:fprecision 0\n1e9 1 2\n"))
+    out.append(("npd-precision-1", "x.npd", "#:ports 1\n#:frequencies 1\n#:parameters Sri\n#:dprecision 1\n#:fprecision 1\n1e9 1 2\n"))
+    out.append(("ts1-r-nan", "x.s2p", "# GHz S RI R nan\n1 1 2 3 4 5 6 7 8\n"))
+    out.append(("ts2-reference-nan", "x.ts", "[Version] 2.0\n# Hz S RI R 50\n[Number of Ports] 1\n[Reference] nan\n"
+                "[Number of Frequencies] 1\n[Network Data]\n1e9 0.1 0.2\n[End]\n"))
+    out.append(("ts2-many-ports-bad-char", "x.ts", "[Version] 2.0\n# Hz S RI R 50\n[Number of Ports] 65536\n[Number of Frequencies] 1\n"
+                "[Network Data]\n$\n"))
+    out.append(("ts2-many-ports-bad-keyword", "x.ts", "[Version] 2.0\n# Hz S RI R 50\n[Number of Ports] 65536\n[Number of Frequencies] 1\n"
+                "[Network Data]\n[Bogus]\n"))
+    out.append(("ts2-many-ports-then-data", "x.ts", "[Version] 2.0\n# Hz S RI R 50\n[Number of Ports] 65536\n[Number of Frequencies] 1\n"
+                "[Network Data]\n1\n"))
     out.append(("npd-no-newline-eof", "x.npd", "#:ports 1\n#:frequencies 1\n#:parameters Sri\n1e9 1 2"))
     out.append(("empty", "x.npd", ""))
     out.append(("empty-ts", "x.ts", ""))
